@@ -23,6 +23,7 @@ RULE = (
     "partner points at separations 10^U[-16,0], near-antipodal pi-10^U[-12,-1] and exactly antipodal, distances in [0,pi], "
     "chords in [0,2] and weighted point sets; oracle = mpmath (50 digits) on the binary inputs with explicit error bounds. "
     "Non-trivial: an input within 1e-6 rad of a pole, the RA seam or the antipode, or a separation < 1e-8; distinct = case digest."
+    ' Extensions: coordinates are also handed over as float32/float16 arrays or nested lists; the reference uses the values those hold.'
 )
 ASSUMPTIONS = [
     "error bounds: to_3d 4e-16 per component; distance 2e-15*(1+theta)/max(cos(theta/2),2e-8); from_3d(to_3d) Dec 2e-15/max(cos(dec),3e-8), RA 2e-15/max(cos(dec),1e-300) (not judged within 1e-7 of a pole); mean 1e-7 rad",
